@@ -462,6 +462,10 @@ pub struct LayoutData { _p: u8 }
 //@ item struct Layout src=src/view/layout.rs
 //@subst N18 type-erased payload `Box<dyn Any + Send + Sync>` replaced by an opaque stand-in /Box<dyn Any \+ Send \+ Sync>/Box<LayoutData>/
 
+// end of a rectangle that starts at `a` and is `b` long, for any recorded position and size (a layout tree laid out under a huge
+// constraint may record rectangles that end beyond usize::MAX: they are clipped like any other)
+pub open spec fn sat_add(a: usize, b: usize) -> usize { if a + b > usize::MAX { usize::MAX } else { (a + b) as usize } }
+
 impl Layout {
     pub closed spec fn g_pos(&self) -> Position { self.pos }
     pub closed spec fn g_size(&self) -> Size { self.size }
@@ -469,14 +473,13 @@ impl Layout {
     //@ fn impl Layout :: apply_to src=src/view/layout.rs ret=r
     //@+ requires
     //@+     exists|win: Win| rep(surf.g_shape(), win, surf.g_data().len()),
-    //@+     self.g_pos().row + self.g_size().height <= usize::MAX, self.g_pos().col + self.g_size().width <= usize::MAX,
     //@+ ensures
     //@+     // same backing data; the new shape denotes the sub-window rows pos.row..pos.row+height, cols pos.col..pos.col+width
     //@+     // of the given surface, clipped to it - never anything outside the surface that was passed in
     //@+     r.g_data() == surf.g_data(),
     //@+     forall|win: Win| rep(surf.g_shape(), win, surf.g_data().len()) ==> rep(r.g_shape(),
-    //@+         view_win(win, range_spec(self.g_pos().row, (self.g_pos().row + self.g_size().height) as usize, surf.g_shape().height),
-    //@+                       range_spec(self.g_pos().col, (self.g_pos().col + self.g_size().width) as usize, surf.g_shape().width)), surf.g_data().len()),
+    //@+         view_win(win, range_spec(self.g_pos().row, sat_add(self.g_pos().row, self.g_size().height), surf.g_shape().height),
+    //@+                       range_spec(self.g_pos().col, sat_add(self.g_pos().col, self.g_size().width), surf.g_shape().width)), surf.g_data().len()),
     //@subst N19 alias `TerminalSurface<'a>` (= SurfaceMutView<'a, Cell>) expanded with the cell type abstracted to a parameter /pub fn apply_to<'a>\(&self, surf: TerminalSurface<'a>\) -> \(r: TerminalSurface<'a>\)/pub fn apply_to<'a, T>(&self, surf: SurfaceMutView<'a, T>) -> (r: SurfaceMutView<'a, T>)/
 }
 
